@@ -37,3 +37,19 @@ Proof.
   intros. apply readonly_never_writes_and_reads_as_dict; try assumption;
     unfold current_pcfg; rewrite ?put_evicts_first_ok, ?put_clears_ref_ok; reflexivity.
 Qed.
+
+From Memento Require Import Storage.Crash Storage.CrashProofs.
+
+Definition ofact (o : option bool) : bool := match o with Some b => b | None => false end.
+
+Definition current_ccfg : ccfg :=
+  {| rd_is_file := ofact rd_is_file_fact; obj_first := ofact obj_first_fact;
+     data_first := ofact data_first_fact; atomic_links := ofact atomic_links_fact |}.
+
+(** C08 obligation for the code as it is now: the reachable set under calls / crashes / faults is
+    closed and every state in it is good (checked by computation over the finite model). *)
+Lemma current_source_crash_ok : crash_ok current_ccfg = true.
+Proof. vm_compute. reflexivity. Qed.
+
+Theorem current_source_crash_safe : forall es, good current_ccfg (run current_ccfg es) = true.
+Proof. exact (crash_safe_all_histories current_ccfg current_source_crash_ok). Qed.
